@@ -23,7 +23,11 @@ import (
 
 // Peers: A (host 2), B (host 3), C (host 4; never associates: the "wrong peer"), T1/T2 (hosts 5,6: fresh node
 // ids used for session takeover; sockets exist only to observe that nothing is mis-sent there).
-const NPeers = 5
+// A2 (index 5): a second socket on A's address with another UDP port - a different peer as far as PFCP
+// transactions go (C06: "requests that differ in source address ... are never mistaken for retransmissions").
+const NPeers = 6
+
+const PeerA2 = 5
 
 var peers [NPeers]*netx.Sock // process-wide: peers are stateless sockets
 
@@ -31,6 +35,10 @@ func peerSocks() [NPeers]*netx.Sock {
 	if peers[0] == nil {
 		b := netx.Get()
 		for i := 0; i < NPeers; i++ {
+			if i == PeerA2 {
+				peers[i] = netx.Listen(b.IP(2), 8806)
+				continue
+			}
 			peers[i] = netx.Listen(b.IP(2+i), 8805)
 		}
 	}
@@ -87,7 +95,12 @@ func New(o Options) *World {
 }
 
 func (w *World) PeerAddr(i int) *net.UDPAddr { return w.Peers[i].Addr() }
-func (w *World) PeerIP(i int) string         { return w.Blk.IP(2 + i).String() }
+func (w *World) PeerIP(i int) string {
+	if i == PeerA2 {
+		return w.Blk.IP(2).String()
+	}
+	return w.Blk.IP(2 + i).String()
+}
 func (w *World) UPFAddr() *net.UDPAddr       { return &net.UDPAddr{IP: w.Blk.IP(1), Port: 8805} }
 
 // Collect waits for the PFCP loop to go idle and gathers what it emitted (used by worlds that have further
